@@ -23,7 +23,7 @@ META = {
     "outside": "payloads longer than the bound for arbitrary bytes (structure-aware long inputs are covered by C03/C06 directed runs); counters above the explored values",
     "assumptions": ["stream double contract: read(n) returns at most n bytes; empty result only at end of data or injected fault"],
 }
-WALL_BUDGET = {"quick": 480, "thorough": 3000}
+WALL_BUDGET = {"quick": 900, "thorough": 3000}
 UNDEF = (0, 1, 999, 1000, 1018, 1028, 1070, 1078, 1138, 1229, 1231, 4072, 4075, 4095)
 
 
